@@ -1036,11 +1036,17 @@ class mulgrid(object):
                         col2.neighbour.add(c)
                         c.neighbour.add(col2)
                     del col.node[i[3]]
+                    n3.column.remove(col)
                     col.centre = col.centroid
                     col.get_area()
                     self.add_column(col2)
                     self.set_column_num_layers(col2)
                     self.add_connection(connection([col, col2]))
+                    col.neighbour.add(col2)
+                    col2.neighbour.add(col)
+                    # connections switched to col2 are filed under its name:
+                    self.connection = dict([((c.column[0].name, c.column[1].name), c)
+                                            for c in self.connectionlist])
                     self.setup_block_name_index()
                     self.setup_block_connection_name_index()
                     return True
